@@ -15,13 +15,13 @@ from .. import core, tlc, traceval
 
 LP_INV = ["OneLine", "Decodes", "NameExact", "TagsExact", "FieldsExact", "TimeRoundedDown"]
 NA = 200
-ALPHA = [97, 32, 44, 61, 34, 39, 92, NA]
+ALPHA = [97, 32, 44, 61, 34, 39, 92, 9, NA]  # 9 = TAB: a control character the protocol does not treat specially
 
 
 # ---------------------------------------------------------------- TLA+ generation
 def lp_module(name, maxlen, cross, emit=True, thorough_pairs=False):
     L = ["---- MODULE %s ----" % name, "EXTENDS LineProtocol, Json"]
-    L.append("Alpha == {97, SP, COMMA, EQ, DQ, SQ, BS, NA}")
+    L.append("Alpha == {97, SP, COMMA, EQ, DQ, SQ, BS, 9, NA}")
     L.append("Txt(n) == {s \\in UNION {[1..k -> Alpha] : k \\in 1..n} : s[Len(s)] # BS}")
     L.append("TxtE(n) == Txt(n) \\cup {<<>>}")
     L.append("A == <<97>>  B == <<98>>  C == <<99>>  D == <<100>>")
